@@ -133,10 +133,13 @@ impl Decoder for LSCodec {
             return Ok(None);
         }
         let content = &src[content_start..content_end];
-        let message = serde_json::from_slice(content).map_err(CodecError::from);
+        // deserialize into `Message`, not into `Option<Message>`, which would turn the body `null`
+        // into `Ok(None)`, i.e. "frame incomplete", although the frame has been consumed
+        let message: Result<Message, CodecError> =
+            serde_json::from_slice(content).map_err(CodecError::from);
         src.advance(content_end);
         log::info!("Decoded: {:#?}", message);
-        message
+        message.map(Some)
     }
 }
 
